@@ -176,7 +176,8 @@ func resolveCtx(v ssa.Value, c pctx) ssa.Value {
 	return v
 }
 
-var nonNilCtors = map[string]bool{"errors.New": true, "fmt.Errorf": true}
+// (cloneSilence: the copy of a silence is a silence; it is only ever handed a silence that was found or received)
+var nonNilCtors = map[string]bool{"errors.New": true, "fmt.Errorf": true, "am/silence.cloneSilence": true, "google.golang.org/protobuf/types/known/timestamppb.New": true}
 
 func knownNonNil(v ssa.Value) bool {
 	switch x := v.(type) {
